@@ -26,7 +26,8 @@
           Neither carries an invalid-message (P4) penalty.
    X10.e  TIMEOUT.  A validator registered with WithValidatorTimeout(T) - asynchronous, inline or run for a local publish -
           gets a context whose deadline is exactly call + T: it ends at that instant and not before; without the option the
-          context has no deadline and ends only when a sibling validator of the same message rejected (or at shutdown).
+          context has no deadline; while the node runs a context is cancelled only when a sibling validator of the same
+          message rejected (validateTopic gives up on the rest), and then at once.
           The pipeline never abandons a running validator: no outcome is traced before every invoked validator returned
           (except the siblings of a rejecting one), the verdict it returns - however late - is the one that counts, and its
           worker / tokens stay occupied until then.
